@@ -6,7 +6,10 @@ use crate::arg::ClientArgs;
 use crate::tls::{MaybeTlsStream, tls_connect};
 use http::header::HeaderValue;
 use penguin_mux::PROTOCOL_VERSION;
+#[cfg(not(penguin_rs_verif))]
 use tokio::net::TcpStream;
+#[cfg(penguin_rs_verif)]
+use penguin_simnet::TcpStream;
 use tokio_tungstenite::tungstenite::{client::IntoClientRequest, handshake::client::Request};
 use tokio_tungstenite::{WebSocketStream, client_async};
 use tracing::{debug, warn};
@@ -68,7 +71,12 @@ async fn handshake_inner(
         req_headers.insert(&header.name, header.value.clone()); // cheap clone
     }
 
+    #[cfg(not(penguin_rs_verif))]
     let tcp_stream = tokio::net::TcpStream::connect((host, port))
+        .await
+        .map_err(super::Error::TcpConnect)?;
+    #[cfg(penguin_rs_verif)]
+    let tcp_stream = TcpStream::connect((host, port))
         .await
         .map_err(super::Error::TcpConnect)?;
 
